@@ -118,6 +118,14 @@ def handleVis (op : String) : P String := do
             (fun g p => if g.contains p then .ok m else .error .valueError) s a))
       | _ => failure
   | "premask" => do let s ← pState; let a ← pArea; pure (showGrid (premask s a))
+  | "raycheck" => do
+      let a ← pArea; let o ← pPos; let rays ← pRays
+      pure (showBool (checkFan a o rays) ++ " " ++ showBool (coversArea a rays))
+  | "raysamples" => do
+      let a ← pArea; let samples ← pCounted pPos
+      let r := rayOfSamples a samples
+      let ok := sampleOK (samples.headD ⟨0, 0⟩) samples && samples.all a.contains
+      pure (" ".intercalate (r.map showPos) ++ " | " ++ showBool ok)
   | _ => failure
 
 def handleEnv (op : String) : P String := do
